@@ -360,7 +360,11 @@ impl<F: Write + Seek> Directory<F> {
             let mut predecessor_id = left_sibling;
             loop {
                 let next_id = self.dir_entry(predecessor_id).right_sibling;
-                if next_id == consts::NO_STREAM {
+                // (An earlier attempt at this removal may have failed after
+                // the predecessor had already adopted the right subtree; the
+                // search must not wander into that subtree then, or an entry
+                // would end up linked to itself.)
+                if next_id == consts::NO_STREAM || next_id == right_sibling {
                     break;
                 }
                 pred_parent_id = predecessor_id;
